@@ -91,8 +91,8 @@ func execPlan(t *testing.T, plan *Plan, keepLog bool) (*RunResult, []string) {
 	var bo bubbleOut
 	select {
 	case bo = <-out:
-	case <-time.After(120 * time.Second): // real time: a run that does not end is a harness problem
-		bo = bubbleOut{res: &RunResult{Seed: plan.Seed, Prop: plan.Prop, World: plan.World, Panic: "HANG: run did not finish within 120s wall"}}
+	case <-time.After(30 * time.Second): // real time: a run that does not end is a harness problem
+		bo = bubbleOut{res: &RunResult{Seed: plan.Seed, Prop: plan.Prop, World: plan.World, Panic: "HANG: run did not finish within 30s wall"}}
 	}
 	if def.post != nil && bo.res.Panic == "" {
 		def.post(bo.res, bo.post)
